@@ -19,7 +19,7 @@ NoCmd == [kind |-> "", wf |-> 1, addr |-> 0, content |-> 0, now |-> 0]
 Init == /\ tid \in 1..Len(Traces) /\ l = 1 /\ bad = {}
         /\ S = [greeted |-> FALSE, helo |-> FALSE, mail |-> FALSE, nrcpt |-> 0, indata |-> FALSE, closing |-> FALSE,
                 closed |-> FALSE, cur |-> NoCmd, inorder |-> TRUE, nfinal |-> 0, ncb |-> 0, verdict |-> 0,
-                msender |-> 0, mrcpts |-> <<>>, handed |-> 0, lastact |-> 0, datastart |-> 0]
+                msender |-> 0, mrcpts |-> <<>>, handed |-> 0, lastact |-> 0, datastart |-> 0, lastcode |-> 0]
 
 Proto == {"MAIL", "RCPT", "DATA", "HAVE_DATA"}
 InOrder(k) ==
@@ -68,7 +68,7 @@ EvReply ==
              \cup Flag("C07_Verdict", S.verdict # 0 => E.code = S.verdict)
              \cup Flag("C07_MessageReceived", (k = "content" /\ E.code < 400) => S.ncb = 1 /\ S.handed = 1)
              \cup Flag("C07_UnknownIsError", k = "UNKNOWN" => err)
-        /\ S' = [S1 EXCEPT !.nfinal = S.nfinal + 1, !.closing = (E.code \in {221, 421}), !.lastact = S.cur.now]
+        /\ S' = [S1 EXCEPT !.nfinal = S.nfinal + 1, !.closing = (E.code \in {221, 421}), !.lastact = S.cur.now, !.lastcode = E.code]
 EvHandoff ==
   /\ E.t = "handoff"
   /\ bad' = bad \cup Flag("C07_Order", S.cur.kind = "content" /\ S.inorder /\ S.handed = 0)
@@ -77,6 +77,11 @@ EvHandoff ==
 EvClosed ==
   /\ E.t = "closed"
   /\ bad' = bad \cup Flag("C07_Close", E.junk = 0)
+                \* the server ends a session only with a 221/421 reply as its last words (or when the client has gone)
+                \* (tolerated: dropping a client right after the error reply to a malformed command)
+                \cup Flag("C07_Close", E.peer_eof \/ S.closing \/ (S.cur.wf = 0 /\ S.nfinal = 1 /\ S.lastcode >= 400))
+                \* ... and the command that caused the end got its reply like any other
+                \cup Flag("C07_OneReply", E.peer_eof \/ S.cur.kind = "" \/ S.nfinal = 1)
                 \cup Flag("C14_Last421", (E.how = "ConnectionLost" /\ T.cfg.stall = 1) => S.closing)
                 \cup Flag("C14_Bounded", T.cfg.stall = 1 => E.now <= T.cfg.deadline)
   /\ S' = [S EXCEPT !.closed = TRUE]
